@@ -149,6 +149,20 @@ static void bad_and_unknown() {
         ptree t = base_tree(); t.put("precond.class", "amg");
         construct<RT2>("unkrt", "preconditioner", key, "1", t);
     }
+    // the other classes of runtime::preconditioner
+    { ptree t; t.put("solver.type", "cg"); t.put("precond.class", "dummy");
+      construct<RT2>("unkrt", "class-dummy", "precond.zz_d", "1", t); }
+    { ptree t; t.put("solver.type", "cg"); t.put("precond.class", "relaxation"); t.put("precond.type", "ilu0");
+      construct<RT2>("unkrt", "class-relaxation", "precond.zz_r", "1", t);
+      construct<RT2>("unkrt", "class-relaxation", "precond.solve.zz_rs", "1", t);
+      construct<RT2>("unkrt", "class-relaxation", "precond.damping", "0.5", t); }
+    { ptree t; t.put("solver.type", "cg"); t.put("precond.class", "nested"); t.put("precond.solver.type", "bicgstab");
+      t.put("precond.precond.class", "amg"); t.put("precond.precond.coarse_enough", 20);
+      construct<RT2>("unkrt", "class-nested", "precond.zz_n", "1", t);
+      construct<RT2>("unkrt", "class-nested", "precond.solver.zz_ns", "1", t);
+      construct<RT2>("unkrt", "class-nested", "precond.precond.zz_np", "1", t);
+      construct<RT2>("unkrt", "class-nested", "precond.precond.relax.zz_npr", "1", t);
+      construct<RT2>("unkrt", "class-nested", "precond.solver.maxiter", "3", t); }
 }
 
 int main() {
